@@ -175,8 +175,19 @@ Definition mon05_step (x : pstate * res * pstep) : bool :=
   | _ => true
   end.
 (* a panic is a violation whether or not the model could follow the history up to it *)
+(* ... and, whether or not the model can follow the history, no observed step allocates more than
+   a constant factor of its input plus the largest buffers a handler may legitimately create (a
+   bitmap for the 838,861-byte cap before the metadata is known, a piece buffer, a 128 KiB block) *)
+Definition mon05_free (c : pcase) (o : pstep) : bool :=
+  let store := match p_geo c with Some g => 2 * psize g | None => 0 end in
+  match st_op o with
+  | OpMsg _ _ => st_alloc o <=? 24 * op_size (st_op o) + store + 65536 + 1048576
+  | OpUpload _ _ => st_alloc o <=? 24 * 131072 + store + 65536 + 1048576
+  | _ => true
+  end.
 Definition monitor05 (c : pcase) : bool :=
   forallb (fun o => negb (verdict_eqb (st_verdict o) VPanic)) (p_steps c) &&
+  forallb (mon05_free c) (p_steps c) &&
   forallb mon05_step (snd (run_case c)).
 Definition bad_monitor05 (cs : list pcase) : list N := map p_id (filter (fun c => negb (monitor05 c)) cs).
 
@@ -322,13 +333,15 @@ Definition monitor16 (c : pcase) : bool :=
 Definition bad_monitor16 (cs : list pcase) : list N := map p_id (filter (fun c => negb (monitor16 c)) cs).
 
 (* ---------- the initial advertisement, observed on the wire of a real peer.Run ---------- *)
-Record advcase := mk_adv { av_id : N; av_geo : geo; av_fast : bool; av_ext : bool; av_my : bm; av_obs : list msg }.
+Record advcase := mk_adv { av_id : N; av_geo : geo; av_fast : bool; av_ext : bool; av_my : bm; av_obs : list msg;
+                           av_stall : bool; av_returned : bool; av_announced : bool }.
 
 Definition is_ext0 (m : msg) : bool := match m with Extended0 _ => true | _ => false end.
 Definition adv_obs (c : advcase) : list msg := filter (fun m => negb (is_ext0 m)) (av_obs c).
 
 Definition msgs_eqb (a b : list msg) : bool := list_eqb msg_eqb a b.
 Definition corr_adv (c : advcase) : bool :=
+  av_stall c ||
   msgs_eqb (adv_obs c) (initial_adv (Some (av_geo c)) (av_fast c) (av_my c)) &&
   (* the extended handshake comes first, exactly when the peer supports the extension protocol *)
   match av_obs c with
@@ -340,11 +353,14 @@ Definition corr_adv (c : advcase) : bool :=
    fast-extension messages only to peers that support it, and the whole says exactly what we have *)
 Definition mon_adv (c : advcase) : bool :=
   let n := num_pieces (av_geo c) in
-  forallb (fun m => match m with HaveAll | HaveNone => av_fast c | _ => true end) (adv_obs c) &&
-  match adv_set n (adv_obs c) [] with
-  | Some s => list_eqb N.eqb s (bits (av_my c))
-  | None => false
-  end.
+  (* every exit path of Run closes Done and announces the departure to the torrent (C05) *)
+  av_returned c && av_announced c &&
+  (av_stall c ||
+   (forallb (fun m => match m with HaveAll | HaveNone => av_fast c | _ => true end) (adv_obs c) &&
+    match adv_set n (adv_obs c) [] with
+    | Some s => list_eqb N.eqb s (bits (av_my c))
+    | None => false
+    end)).
 
 Definition bad_corr_adv (cs : list advcase) : list N := map av_id (filter (fun c => negb (corr_adv c)) cs).
 Definition bad_monitor_adv (cs : list advcase) : list N := map av_id (filter (fun c => negb (mon_adv c)) cs).
